@@ -3,9 +3,11 @@ from vlib.framework import PUnit, LUnit, BUnit
 from bounded import b_seq as B
 
 from contracts import dna as D
+from contracts import effects as E
 
 P_UNITS = [LUnit("pairing-table", D.lemma_base_library),
-           PUnit("complement-strand", [D.COMPLEMENT], D.REG)]
+           PUnit("complement-strand", [D.COMPLEMENT], D.REG),
+           LUnit("completion-on-every-route", E.lemma_dsdna_route)]
 
 
 def build(tier, seed):
